@@ -137,7 +137,7 @@ def install(idm):
     def gen_random_id(self_sp, subspace=idm.IDSubspace()):
         a = agent()
         val = None
-        if a is not None and a.collide > 0 and a.rng.random() < a.collide and a.real_conn is not None:
+        if a is not None and a.real_conn is not None and (len(a.samples) < a.collide_first or (a.collide > 0 and a.rng.random() < a.collide)):
             rows = a.real_conn.execute(f"SELECT id FROM {self_sp.namespace_name()}").fetchall()
             rows = [r[0] for r in rows if in_filter(idm, self_sp, subspace, r[0])]
             if rows:
@@ -175,6 +175,7 @@ class Agent:
         self.real_conn = None
         self.now_us = 0
         self.collide = 0.0
+        self.collide_first = 0      # the first n samples of the call are forced to collide with existing rows
         self.samples = []
         self.op_index = -1
         self.op_kind = "open"
@@ -184,9 +185,9 @@ class Agent:
         self.txn_done_in_op = False
         self.trace = []             # every statement: dict(op, sql, kind, event)
 
-    def begin_op(self, i, kind, now_us=0, collide=0.0):
+    def begin_op(self, i, kind, now_us=0, collide=0.0, collide_first=0):
         self.op_index, self.op_kind = i, kind
-        self.now_us, self.collide = now_us, collide
+        self.now_us, self.collide, self.collide_first = now_us, collide, collide_first
         self.samples = []
         self.body_done = False
         self.txn_done_in_op = False
@@ -442,7 +443,7 @@ class Scheduler:
             mgr = self.idm.IDManager(self.path, max_ids_per_subspace=self.max_ids)
             ag.free_run = False
             for i, op in enumerate(self.proc_ops[tid]):
-                ag.begin_op(i, op["k"], op_now(op), op.get("collide", 0.0))
+                ag.begin_op(i, op["k"], op_now(op), op.get("collide", 0.0), op.get("collide_first", 0))
                 res = run_op(self.idm, mgr, op, self.toks)
                 self.results[tid].append(res)
                 self.samples[tid].append(list(ag.samples))
